@@ -6,6 +6,11 @@ spec/cabi/SysVShapes.tla  TLC enumerates struct shapes (exhaustive 1-4 fields + 
 spec/cabi/SysVCall.tla    TLC enumerates call shapes f(pre..., STRUCT, i64, f64) (position 0..8, register pressure,
                           MEMORY results) and prints where every argument lives
 spec/cabi/CStr.tla        Go string / []byte <-> C buffer law
+spec/cabi/CBuf.tla        cgo byte buffers as a machine {Go value, C buffer}: ToC (copy), C writes, Go writes, ToGo (copy); snapshot laws;
+                          TLC enumerates the scripts with their prescribed observations; ONE cgo program (package cg, import "C")
+                          interprets them all, built by llgo and by the reference toolchain (self-validation)
+spec/cabi/SysVVariadic.tla variadic C functions: where the caller puts each argument vs where va_start/va_arg look (in order)
+spec/cabi/SysVNarrow.tla  int8/int16/uint8/uint16 parameters behind an aggregate, run-time truncated values, optimised callee
 binding: the driver groups the TLC-printed shapes by the spec's classification state and picks representatives per
          (state x call shape); for each case it generates C (callee echoing every field, caller invoking a Go callback)
          and Go (binding sub-package + main); llgo builds the bundle, the run's output is compared field by field with
@@ -26,6 +31,7 @@ from concurrent.futures import ThreadPoolExecutor
 from . import common as C
 
 SPEC = os.path.join(C.VERIF, "spec", "cabi")
+NENV = {"C09_NFLAGS": "-O2"}        # flags of the C file of the narrow-integer cases (LLGoFiles = "$C09_NFLAGS: ...")
 HARNESS = os.path.join(C.VERIF, "harness", "c09")
 
 CT = {"i8": "int8_t", "i16": "int16_t", "i32": "int32_t", "i64": "int64_t", "f32": "float", "f64": "double", "ptr": "void*"}
@@ -667,7 +673,7 @@ class Bundle:
             gom[gom.index('\t"vmod/cb"')] = '\t"vmod/cb"\n\t"vmod/cn"'
             calls_go.append("\tnwCases()")
             calls_c.append("  c09_ncases();")
-        gom.append("func main() {\n\tfrom := int(cb.From())\n" + ("\tif from == 0 {\n\t\tcstrCases()\n\t}\n" if self.cstr else "") +
+        gom.append("func main() {\n\tfrom := int(cb.From())\n\t_ = from\n" + ("\tif from == 0 {\n\t\tcstrCases()\n\t}\n" if self.cstr else "") +
                    "\n".join(calls_go) + '\n\tprintln("C09 done")\n}')
         cm.append("int main(void) {\n  int from = c09_from();\n" + "\n".join(calls_c) + '\n  fprintf(stderr, "C09 done\\n");\n  return 0;\n}')
         self.files = {"cb/wrap/shapes.h": "\n".join(hdr) + "\n", "cb/wrap/wrap.c": "\n".join(wrap) + "\n",
@@ -832,7 +838,7 @@ def gen_variadic(vcases, expect):
                  "    else v[m] = (unsigned long long)va_arg(ap, int64_t);",
                  "  }",
                  "  va_end(ap);",
-                 '  fprintf(stdout, "C09 V%d va", (int)(n >= 0 && n < %d ? n : %d));' % (len(vcases), len(vcases))]
+                 '  fprintf(stdout, "C09 V%%d va", (int)(n >= 0 && n < %d ? n : %d));' % (len(vcases), len(vcases))]
             for t, cp, _ in lv:
                 c.append('  fprintf(stdout, " %%llu", %s);' % c_bits("s" + cp, t))
             c += ['  fprintf(stdout, " %llu", (unsigned long long)(long long)n);',
@@ -1249,6 +1255,7 @@ def run_cbuf_exe(exe, nscripts, env=None, max_restarts=400):
 
 
 def eval_cbuf(chk, scripts, exp, got, opt="O0"):
+    only = ":O2only" if opt != "O0" else ""
     """a failing script is charged to its shortest failing prefix (every prefix of a script is a script of its own): the last
     action of that prefix is the culprit, the first wrong observation names the damaged value and the conversion that made it"""
     bad = {}
@@ -1273,12 +1280,14 @@ def eval_cbuf(chk, scripts, exp, got, opt="O0"):
             damaged = [k for k in ("src", "buf", "back") if any(d[0] == k for d in det)][0]
             togo = [o[0] for o in p["ops"] if o[0] in ("GoString", "GoStringN", "GoBytes")]
             producer = "Go" if damaged == "src" else p["ops"][0][0] if damaged == "buf" else (togo[0] if togo else "none")
-        key = "cbuf:%s:%s:%s:%s" % ("empty" if not p["s"] else "nonempty", damaged, producer, culprit)
+        key = "cbuf:%s:%s:%s:%s%s" % ("empty" if not p["s"] else "nonempty", damaged, producer, culprit, only)
         groups.setdefault(key, {"roots": [], "all": []})
         if root not in groups[key]["roots"]:
             groups[key]["roots"].append(root)
         groups[key]["all"].append(i)
     for key, g in groups.items():
+        # the most readable minimal script represents the group: shortest, then without NUL bytes
+        g["roots"].sort(key=lambda j: (len(scripts[j]["ops"]), len(scripts[j]["s"]), 0 in scripts[j]["s"], scripts[j]["s"], scripts[j]["ops"]))
         root = g["roots"][0]
         p = scripts[root]
         det = bad[root]
@@ -1367,12 +1376,19 @@ def c_selfcheck(chk, b, d):
             f.write(b.files["cb/wrap/" + n])
     with open(os.path.join(wd, "cmain.c"), "w") as f:
         f.write(b.cmain)
-    shape_expect = {k: v for k, v in b.expect.items() if isinstance(k[0], int)}
+    has_narrow = "cn/wrap/narrow.c" in b.files
+    if has_narrow:
+        with open(os.path.join(wd, "narrow.c"), "w") as f:
+            f.write(b.files["cn/wrap/narrow.c"])
+    shape_expect = {k: v for k, v in b.expect.items() if isinstance(k[0], int) or k[0][0] in "VN"}
     n = 0
     for label, cc_wrap, flags in (("gcc-gcc", "gcc", "-O1"), ("clang14-gcc", "/usr/lib/llvm-14/bin/clang", "-O2")):
         exe = os.path.join(wd, "cself-" + label)
         cmds = [[cc_wrap, flags, "-w", "-c", "wrap.c", "-o", "wrap-%s.o" % label],
                 ["gcc", "-O0", "-w", "cmain.c", "wrap-%s.o" % label, "-o", exe]]
+        if has_narrow:      # the callees of the narrow-integer cases are optimised in both runs
+            cmds.insert(1, [cc_wrap, "-O2", "-w", "-c", "narrow.c", "-o", "narrow-%s.o" % label])
+            cmds[-1].insert(5, "narrow-%s.o" % label)
         for cmd in cmds:
             r = subprocess.run(cmd, cwd=wd, capture_output=True, text=True)
             if r.returncode != 0:
@@ -1417,12 +1433,16 @@ def evaluate(chk, b, got, crashes, opt, calls, failed_before):
             cs = b.cases[key[0]]
             if cs.canonical:
                 canon_fail[(cs.cls, key[1])] = cs
+    vfail, nfail = {}, {}
     for key in sorted(failing, key=lambda k: (str(k[0]), k[1])):
         det = failing[key]
         out.add(key)
         if key in failed_before:
             continue        # already reported for O0
         only = "O2only" if (opt != "O0") else None
+        if isinstance(key[0], str) and key[0][0] in "VN":
+            (vfail if key[0][0] == "V" else nfail).setdefault(int(key[0][1:]), []).extend((key, i, n, w, h) for i, n, w, h in det)
+            continue
         if isinstance(key[0], int):
             cs = b.cases[key[0]]
             rep = canon_fail.get((cs.cls, key[1]), cs)
@@ -1441,6 +1461,11 @@ def evaluate(chk, b, got, crashes, opt, calls, failed_before):
             what = "; ".join("%s: expected %s, got %s" % (n, w, h) for i, n, w, h in det[:4])
             chk.reject(k + (":" + only if only else ""), "C string %s %s at %s: %s" % (key[1], b.cstr[int(key[0][1:])]["s"], opt, what),
                        {"kind": key[1], "tokens": b.cstr[int(key[0][1:])], "opt": opt, "mismatches": det})
+    only = "O2only" if (opt != "O0") else None
+    if vfail:
+        eval_variadic(chk, b, vfail, opt, only)
+    if nfail:
+        eval_narrow(chk, b, nfail, opt, only)
     return out
 
 
@@ -1508,9 +1533,16 @@ def check(chk):
         "executed as Go->C argument (arg), C->Go result (res), C->Go callback parameter (cbarg), Go callback result (cbres), and "
         "the caller's own copy after the callee overwrote its by-value parameter (keep, cbkeep); results are the struct itself "
         "or a fixed MEMORY-class struct (hidden pointer + register-class argument); plus fixed calls passing scalars of every "
-        "width in registers and on the stack with alternating signs; plus the CStr strings; evaluations = compared "
-        "(case, direction, optimisation level) lines; distinct_nontrivial = distinct (classification state | call state) "
-        "classes executed whose struct has >= 2 scalar leaves"
+        "width in registers and on the stack with alternating signs; plus the CStr strings; plus SysVVariadic's calls of "
+        "variadic C functions f([S s,] int32 n, ...) (S none / <= 8 / 9-16 / > 16 bytes; 0..3 variadic arguments over "
+        "int64, float64, pointer; the callee must read them in order); plus SysVNarrow's calls f([int8,] S, int8, int16, int64, "
+        "uint8, uint16) with arguments truncated from run-time values and a C callee compiled -O2 (S of every class, 2-4 "
+        "fields); plus CBuf's scripts, run by one cgo program (import \"C\": C.CString/C.CBytes, C writes, Go writes, "
+        "C.GoString/GoStringN/GoBytes) built by llgo and, for self-validation, by the reference Go toolchain; evaluations = "
+        "compared (case, direction, optimisation level) lines; distinct_nontrivial = distinct (classification state | call "
+        "state) classes executed whose struct has >= 2 scalar leaves + distinct variadic (prefix, kinds) with >= 1 variadic "
+        "argument + distinct (aggregate, form) of the narrow calls + distinct operation sequences (>= 2 operations) of the "
+        "cgo scripts"
         % ((3, "; thorough: size + content of every 4-byte word") if thorough else (2, "")))
     # ---- layer A: cases (the four TLC runs are independent: run them side by side)
     exh = {"MaxFields": 4, "MaxCFields": 3 if thorough else 2, "NestMax": 3, "MaxBytes": 80, "Wide": "FALSE",
@@ -1518,12 +1550,16 @@ def check(chk):
     walk = {"MaxFields": 12, "MaxCFields": 12, "NestMax": 3, "MaxBytes": 80, "Wide": "TRUE",
             "Sel": 0, "Mod": 1, "NWalk": 400 if thorough else 40, "Seed": sd % 1000}
     C.llgo_binary()
-    with ThreadPoolExecutor(max_workers=4) as ex:
+    with ThreadPoolExecutor(max_workers=7) as ex:
         f_calls = ex.submit(run_calls, chk)
         f_shapes = ex.submit(run_shapes, chk, "exh3" if thorough else "exh2", exh, 2400 if thorough else 900)
         f_big = ex.submit(run_shapes, chk, "walk", walk, 900)
         f_cstr = ex.submit(C.tlc, SPEC, "CStr", "cstr.cfg", rd, 2, 300)
+        f_cbuf = ex.submit(run_cbuf_tlc, chk, thorough)
+        f_va = ex.submit(run_variadic, chk, thorough)
+        f_nw = ex.submit(run_narrow, chk)
         calls, shapes, big, res = f_calls.result(), f_shapes.result(), f_big.result(), f_cstr.result()
+        scripts, vcases, ncases = f_cbuf.result(), f_va.result(), f_nw.result()
     if not res.ok:
         raise C.Undecided("CStr law failed in TLC: %s" % res.violation)
     chk.add_tlc(res, "CStr")
@@ -1550,11 +1586,12 @@ def check(chk):
     bundles = []
     per = 90 if thorough else max(60, (len(cases) + 3) // 4)
     for i in range(0, len(cases), per):
-        bundles.append(Bundle(len(bundles), cases[i:i + per], cstr=cstr if i == 0 else None))
+        bundles.append(Bundle(len(bundles), cases[i:i + per], cstr=cstr if i == 0 else None,
+                              variadic=vcases if i == 0 else None, narrow=ncases if i == 0 else None))
     opts = ["O0", "O2"] if thorough else ["O0"]
     if os.environ.get("VERIF_C09_OPTS"):            # development aid, e.g. VERIF_C09_OPTS=O0,O2 with the quick case set
         opts = os.environ["VERIF_C09_OPTS"].split(",")
-    par = 4
+    par = 5          # four bundles and the cgo program
 
     import queue
     slots = queue.Queue()
@@ -1584,7 +1621,7 @@ def check(chk):
             dd = os.path.join(d, "iso%d" % n)
             bb = Bundle(0, sub, cstr=None, negctl=False)
             C.write_module(dd, bb.files)
-            ok, out = C.llgo_build(dd, os.path.join(dd, "prog"), opt="O0", rundir=dd, config="O0-c09s%d" % slot)
+            ok, out = C.llgo_build(dd, os.path.join(dd, "prog"), opt="O0", rundir=dd, config="O0-c09s%d" % slot, extra_env=NENV)
             return ok, out
         for _ in range(3):
             ok, out = builds(rest)
@@ -1613,18 +1650,18 @@ def check(chk):
         culprits = []
         for opt in opts:
             exe = os.path.join(d, "prog." + opt)
-            ok, out = C.llgo_build(d, exe, opt=opt, rundir=d, config="%s-c09s%d" % (opt, slot))
+            ok, out = C.llgo_build(d, exe, opt=opt, rundir=d, config="%s-c09s%d" % (opt, slot), extra_env=NENV)
             if not ok and opt == "O0":
                 if not any(x in out for x in ("SIGSEGV", "panic:", "signal", "LLVM ERROR", "error:")):
                     raise C.Undecided("llgo cannot build bundle %d at O0:\n%s" % (b.idx, out[-3000:]))
                 culprits, rest = isolate(b, slot, d)
                 if not culprits or not rest:
                     raise C.Undecided("llgo cannot build bundle %d at O0:\n%s" % (b.idx, crash_head(out)))
-                b = Bundle(b.idx, rest, cstr=b.cstr, negctl=b.negctl)
+                b = Bundle(b.idx, rest, cstr=b.cstr, negctl=b.negctl, variadic=b.variadic, narrow=b.narrow)
                 d = os.path.join(rd, "b%dr" % b.idx)
                 C.write_module(d, b.files)
                 exe = os.path.join(d, "prog." + opt)
-                ok, out = C.llgo_build(d, exe, opt=opt, rundir=d, config="%s-c09s%d" % (opt, slot))
+                ok, out = C.llgo_build(d, exe, opt=opt, rundir=d, config="%s-c09s%d" % (opt, slot), extra_env=NENV)
             if not ok:
                 results[opt] = ("buildfail", out)
                 continue
@@ -1632,9 +1669,81 @@ def check(chk):
             results[opt] = ("ran", got, crashes, done)
         return b, nself, results, culprits
 
+    # ---- the cgo program of CBuf.tla: every script in one interpreter, built by llgo and by the reference toolchain
+    cb_exp = cbuf_expect(scripts)
+    cb_files = cbuf_files(scripts)
+
+    def work_cbuf():
+        slot = slots.get()
+        try:
+            d = os.path.join(rd, "cbuf")
+            C.write_module(d, cb_files)
+            res = {}
+            for opt in opts:
+                exe = os.path.join(d, "prog." + opt)
+                ok, out = C.llgo_build(d, exe, opt=opt, rundir=d, config="%s-c09s%d" % (opt, slot))
+                res[opt] = ("ran",) + run_cbuf_exe(exe, len(scripts)) if ok else ("buildfail", out)
+            return res
+        finally:
+            slots.put(slot)
+
+    def work_cbuf_ref():
+        d = os.path.join(rd, "cbufref")
+        C.write_module(d, cb_files)
+        exe = os.path.join(d, "prog.ref")
+        ok, out = C.go_build(d, exe, go=C.ref_go(), env=C.base_env({"CGO_ENABLED": "1", "CC": "gcc", "GOCACHE": os.path.join(C.BUILD, "gocache-c09")}))
+        if not ok:
+            raise C.Undecided("the reference toolchain cannot build the cgo program of CBuf:\n" + out[-2000:])
+        return run_cbuf_exe(exe, len(scripts), max_restarts=1)
+
     C.llgo_binary()
-    with ThreadPoolExecutor(max_workers=par) as ex:
+    with ThreadPoolExecutor(max_workers=par + 1) as ex:
+        f_cb = ex.submit(work_cbuf)
+        f_ref = ex.submit(work_cbuf_ref)
         outs = list(ex.map(work, bundles))
+        cb_res, (ref_got, ref_crashed, ref_done) = f_cb.result(), f_ref.result()
+    # self-validation: the program built by the reference toolchain must make exactly the observations CBuf prescribes
+    ref_bad = list(compare(cb_exp, ref_got))
+    if ref_crashed or not ref_done or ref_bad:
+        raise C.Undecided("CBuf.tla disagrees with the reference toolchain (cgo), the spec or the generator is wrong: crashed=%s %s"
+                          % (ref_crashed[:3], [(k, n, w, h) for k, i, n, w, h in ref_bad[:3]]))
+    chk.cov["cbuf_reference_lines"] = len(cb_exp)
+    cb_ctl = None
+    for opt in opts:
+        r = cb_res[opt]
+        if r[0] == "buildfail":
+            if opt == "O0":
+                raise C.Undecided("llgo cannot build the cgo program of CBuf at O0:\n%s" % r[1][-3000:])
+            chk.cov.setdefault("skipped_configs", []).append("cbuf at %s does not build here: %s" % (opt, r[1][-300:]))
+            continue
+        _, cb_got, cb_crashed, cb_done = r
+        if opt == "O0":
+            groups, nbad = eval_cbuf(chk, scripts, cb_exp, cb_got, opt)
+            chk.cov["cbuf_failing_scripts"] = nbad
+            chk.cov["cbuf_hard_crashes"] = len(cb_crashed)
+            # negative control: one corrupted expectation of a line that agrees must be flagged, and only that one
+            base = set(k for k, *_ in compare(cb_exp, cb_got))
+            good = [k for k in cb_exp if k not in base and cb_exp[k]]
+            if good:
+                k0 = good[len(good) // 2]
+                exp2 = dict(cb_exp)
+                exp2[k0] = cb_exp[k0][:-1] + [(cb_exp[k0][-1][0], cb_exp[k0][-1][1] ^ 0x20)]
+                cb_ctl = set(k for k, *_ in compare(exp2, cb_got)) - base == {k0}
+                if not cb_ctl:
+                    raise C.Undecided("negative control (cbuf): a corrupted expectation was not flagged")
+        else:
+            base0 = set(k[0] for k, *_ in compare(cb_exp, cb_res["O0"][1])) if cb_res["O0"][0] == "ran" else set()
+            only = {k: v for k, v in cb_exp.items() if k[0] not in base0}
+            groups, nbad = eval_cbuf(chk, scripts, only, cb_got, opt)
+        chk.cov["evaluations"] += len(cb_exp)
+        chk.cov["traces_validated_against_impl"] += len(cb_exp)
+    chk.cov["cbuf_scripts"] = len(scripts)
+    chk.cov["variadic_calls"] = len(vcases)
+    chk.cov["narrow_calls"] = len(ncases)
+    chk.sample({"cbuf_script": cbuf_name(scripts[len(scripts) // 2]), "src": scripts[len(scripts) // 2]["src"],
+                "buf": scripts[len(scripts) // 2]["buf"], "back": scripts[len(scripts) // 2]["back"]})
+    chk.sample({"variadic": vname(vcases[-1]), "caller": vcases[-1]["locs"], "va_arg": vcases[-1]["reads"]})
+    chk.sample({"narrow": nname(ncases[-1]), "seen": ncases[-1]["seen"]})
     nontrivial = set()
     neg_ok = False
     bundles = [o[0] for o in outs]
@@ -1671,6 +1780,9 @@ def check(chk):
         for cs in b.cases:
             if len(cs.sh["flat"]) >= 2:
                 nontrivial.add(cs.cls)
+        nontrivial |= set(("variadic", r["psig"], tuple(r["kinds"])) for r in b.variadic if r["kinds"])
+        nontrivial |= set(("narrow", r["psig"], r["form"]) for r in b.narrow if r["prefix"]["shape"])
+    nontrivial |= set(("cbuf", tuple(o[0] for o in r["ops"])) for r in scripts if len(r["ops"]) >= 2)
     chk.cov["distinct_nontrivial"] = len(nontrivial)
     # ---- negative control on the comparison itself: one corrupted expectation of a line that currently agrees must
     # be flagged (if no line of any bundle agrees, every case is already a violation and the control is moot)
@@ -1687,6 +1799,13 @@ def check(chk):
             exp2[k0][-1] = (exp2[k0][-1][0], exp2[k0][-1][1] ^ (1 << 3))
             bad_keys = set(k for k, *_ in compare(exp2, r0[1]))
             ctl = (bad_keys - base_keys == {k0})
+            for fam in "VN":          # the same control on one line of each added family (variadic, narrow)
+                goodf = [k for k in b.expect if k not in base_keys and isinstance(k[0], str) and k[0][0] == fam and b.expect[k]]
+                if goodf:
+                    kf = goodf[len(goodf) // 2]
+                    exp3 = dict(b.expect)
+                    exp3[kf] = b.expect[kf][:-1] + [(b.expect[kf][-1][0], b.expect[kf][-1][1] ^ (1 << 7))]
+                    ctl = ctl and (set(k for k, *_ in compare(exp3, r0[1])) - base_keys == {kf})
             break
     if ctl is False or (ctl is None and not chk.violations and not chk.known_hits):
         raise C.Undecided("negative control: a corrupted expectation was not flagged")
@@ -1707,6 +1826,13 @@ def check(chk):
         "(closures that capture variables are not passed to C)",
         "scalar arguments are compared after widening to 64 bits (sign extension is part of the value); struct fields bit for bit",
         "the location vectors printed by SysVCall select and describe cases; the verdict is the identity law alone",
+        "variadic calls: fixed parameters are one aggregate and an int32; variadic arguments are int64, float64 and unsafe.Pointer "
+        "(no aggregates, at most %d, so none reaches the overflow area); failures are keyed by the shortest failing argument list" % (4 if thorough else 3),
+        "narrow integers: the C file of these cases alone is compiled with -O2 (LLGoFiles = \"$C09_NFLAGS: ...\"); the law - the caller "
+        "extends int8/int16/uint8/uint16 arguments - is the convention clang relies on and gcc provides, not a sentence of the psABI text",
+        "cgo buffers: the C buffer is never freed during a script; C writes only inside the payload (never the terminator, never out of "
+        "bounds); a failing script is charged to its shortest failing prefix; whether C.CBytes of an empty slice returns a non-nil "
+        "pointer is not observed, only that it does not fail",
     ]
 
 
